@@ -33,11 +33,14 @@ Judge(c) ==
     [] c.op = "fingerprint" -> Judge_fingerprint(c)
     [] OTHER -> << "H.op=fail" >>
 
-VARIABLE i
-Init == i = 1
-Next == /\ i <= NCases
-        /\ PrintT(<<"B", CasesIn[i].id>>)
-        /\ PrintT(<<"R", CasesIn[i].id, Judge(CasesIn[i])>>)
-        /\ i' = i + 1
+\* NOTE on the variable's name: a state variable that shares its name with bound variables / operator parameters of the extended
+\* modules (i, s, c, d ...) makes TLC treat those expressions as state-level and stop caching lazily evaluated values
+\* (measured: 240 s instead of 3 s for one 200-element array). Hence the unusual name.
+VARIABLE casepos
+Init == casepos = 1
+Next == /\ casepos <= NCases
+        /\ PrintT(<<"B", CasesIn[casepos].id>>)
+        /\ PrintT(<<"R", CasesIn[casepos].id, Judge(CasesIn[casepos])>>)
+        /\ casepos' = casepos + 1
 AllJudged == TLCGet("stats").diameter - 1 = NCases
 =============================================================================
